@@ -139,6 +139,18 @@ func TestPropCategories(t *testing.T) {
 
 func TestPropSticky(t *testing.T) { evid.RunProp(t, "sticky", 1, gen, check) }
 
+// FuzzSticky: coverage-guided exploration of the same generator (rapid.MakeFuzz turns the fuzzer's bytes into draws).
+func FuzzSticky(f *testing.F) {
+	f.Fuzz(rapid.MakeFuzz(func(t *rapid.T) {
+		c := gen(t)
+		o := check(c)
+		if o.Violation != "" && !(o.Finding != "" && evid.IsKnown(o.Finding)) {
+			evid.Record("fuzzsticky", c, o)
+			t.Fatalf("%s replay=%s", o.Violation, evid.SaveFailure("fuzzsticky"))
+		}
+	}))
+}
+
 func TestReplay(t *testing.T) {
-	evid.Replay(t, evid.R("sticky", check), evid.R("categories", check))
+	evid.Replay(t, evid.R("fuzzsticky", check), evid.R("sticky", check), evid.R("categories", check))
 }
